@@ -101,6 +101,30 @@ CHECKS = {
              "(frame averaging off - the averaging data path is C10's -, stream i uses device pair i, configure/start between acquisitions): logs "
              "outside G1 are checked by the independent oracle only. Axioms: none (all theorems closed under the global context).",
         technique="Coq invariant proof of the post-state of stop/abort over all traces; trace-acceptance check with aborts at arbitrary scheduling points + deadlock detector"),
+    "C08": dict(
+        family="pipe", design="6.8",
+        text="Machine-checked proof over the same transition system as C04 and an independent device life-cycle monitor (PipeLife.lc_step: per "
+             "device instance new -> open -> (running -> open)* -> closed; open once; configured, started and closed only while open and not "
+             "running; stopped only while running, i.e. exactly once per successful start, a failing append counting as the device stopping "
+             "itself; frame/append/trigger calls only while running; nothing after close): every accepted trace of any length whose open calls "
+             "hand out distinct instances drives the monitor without error, by a simulation between the model's four device slots and the "
+             "monitor (C08_discipline_partial); when shutdown returns every instance ever opened is closed, exactly once "
+             "(C08_closed_by_shutdown); Running is reported only while a worker of a configured stream is alive and the state is Armed with all "
+             "workers gone and no device running once stop or abort has returned (C08_running_report_means_alive, "
+             "C08_armed_after_stop_or_abort). PARTIAL: the theorems cover grammar G1 (configure and start issued while no worker of the stream "
+             "is alive; start with no valid stream included); the full statement (any order, incl. configure and start while running) is false "
+             "of the unchanged code: two known findings recorded with replays (configure while running re-arms a running storage / closes "
+             "devices in use). Tied to the code by the trace-acceptance check of C04 plus generated arbitrary API programs (start while running, "
+             "stop/abort when idle, re-configuration - also while running, also with the other device pair -, streams switched off and on, "
+             "monitor calls at any time); programs outside G1 are judged by the independent Python life-cycle automaton over the mock driver's "
+             "call log and by ASan (the mock's close frees the device).",
+        note=TB + "Modelled, not verified: OS fairness (an enabled thread is eventually scheduled); pthread mutex/condvar/event semantics "
+             "(harness/vplatform replaces platform.c); sequential consistency at the granularity of the blocks between scheduling points (the C11 "
+             "races on the unsynchronised stop/running flags are not modelled); the shipped devices are replaced by a mock driver (they are C14-C18); "
+             "the queue sink.in is the abstract multi-reader log that the ring family (C01-C03) proves channel.c to implement; model scope G1 "
+             "(frame averaging off - the averaging data path is C10's -, stream i uses device pair i, configure/start between acquisitions): logs "
+             "outside G1 are checked by the independent oracle only. Axioms: none (all theorems closed under the global context).",
+        technique="Coq simulation proof between the runtime model and an independent device life-cycle monitor (all traces of grammar G1); trace-acceptance check + Python life-cycle automaton over arbitrary API programs"),
     "C09": dict(
         family="pipe", design="6.9",
         text="Machine-checked proof over the same transition system as C04 with device faults as events (a frame call that fails, an append that "
